@@ -43,6 +43,7 @@ def _closest(nF, nC, d, squared):
             return z3.And(*[first_argmin(r.flat()[i], i, FS, CS, nC, d) for i in range(nF)])
         t.prove_paths("each_result_is_the_first_nearest_row", paths, goal)
         t.frame_unchanged("frame:inputs-not-written", paths, ["F", "C"])
+        t.agree(paths, k=2)
         t.implicit()
     return _t
 
